@@ -197,6 +197,21 @@ class TG:
                     continue
                 els.append(p.name)
                 exp.append((p.name, 0, card, ('set', e) if p.multi else e))
+        # an existing pointer redefined by the query with another optionality
+        redefinable = [p for p in ptrs if not p.computed and p.name not in [e[0] for e in exp]
+                       and ((not p.is_link and p.target == 'str') or (p.is_link and not p.multi))]
+        if redefinable and depth > 0 and self.i(0, 2) == 0:
+            p = self.pick(redefinable)
+            if p.is_link:
+                els.append(f'{p.name} := assert_exists(.{p.name})')
+                exp.append((p.name, 4, 'ONE', ('shape', p.target[1], [])))
+            elif p.multi:
+                # the pointer stays multi (declared so in the schema); only its lower bound changes
+                els.append(f"{p.name} := 'const'")
+                exp.append((p.name, 0, 'AT_LEAST_ONE', ('set', SC('std::str'))))
+            else:
+                els.append(f"{p.name} := .{p.name} ?? 'x'")
+                exp.append((p.name, 0, 'ONE', SC('std::str')))
         # polymorphic elements: [is Sub].ptr for pointers that only a descendant has
         subs = self.info.types[t]['descendants']
         if subs and self.i(0, 2) == 0:
